@@ -38,6 +38,9 @@ type Engine struct {
 	Solver     *Solver
 	Intrinsics map[string]Intrinsic
 	Redirects  map[string]*ssa.Function // callee name -> harness function
+	// OpaquePkgs: calls into these packages return the zero value of their result type (used while
+	// interpreting a package initialiser whose variables the harness never reads, e.g. parsed templates)
+	OpaquePkgs map[string]bool
 	RedirectMatch func(name string) string // optional: callee name -> harness function name in RedirectPkg
 	RedirectPkg   *ssa.Package
 	NativeGlob map[string]interface{} // qualified name -> pointer to the native variable
